@@ -1,6 +1,9 @@
 import PhononModel.Lemmas.DynMatSym
 import PhononModel.Lemmas.DynMatFourier
 import PhononModel.Lemmas.DynMatExample
+import PhononModel.Lemmas.DynMatBatch
+import PhononModel.Gen.Units
+import PhononModel.Lemmas.UnitAlgebra
 import Mathlib.Tactic.FinCases
 import Mathlib.Tactic.NormNum
 /-!
@@ -128,6 +131,75 @@ theorem hermitize_fixed {T : DTables np ns ns nsv} {C : CTables np ns nt} (hl : 
   obtain ⟨π, hπ⟩ := hneg i k
   exact phaseAvgC_conj_of_neg T sv e he k (C.sigma i k) i (C.s2pp k) π hπ
 
+/-! ### loop forms of the kernel and the q-point batch -/
+
+/-- (7) the OpenMP form `for ij < np²: get_dynmat_ij(ij / np, ij % np)` fills block `(i,j)` in iteration `i·np + j`
+with what the serial double loop fills, and every block is written by exactly one iteration. -/
+theorem ij_loop_eq_double_loop {T : DTables np nf ns nsv} (ph : Fin nsv → Cx R) (mm : Fin np → Fin np → R)
+    (fc : Fin nf → Fin ns → Fin 3 → Fin 3 → R) (hnp : 0 < np) :
+    (∀ (i j : Fin np) (a b : Fin 3) (h : i.1 * np + j.1 < np * np),
+      rawByIJ T ph mm fc hnp ⟨i.1 * np + j.1, h⟩ a b = dynmatRawC T ph mm fc i a j b) ∧
+    Function.Bijective (fun ij : Fin (np * np) =>
+      ((⟨ij.1 / np, Nat.div_lt_of_lt_mul ij.2⟩ : Fin np), (⟨ij.1 % np, Nat.mod_lt _ hnp⟩ : Fin np))) :=
+  ⟨fun i j a b h => rawByIJ_eq T ph mm fc hnp i j a b h, ij_decode_bijective hnp⟩
+
+/-- (8) **the q-point batch (`dym_dynamical_matrices_with_dd_openmp_over_qpoints`, no NAC) is the map of the single-q
+kernel**: the buffer element at `adrs_shift·n + (3i+a)·3np + 3j+b` is entry `(i,a),(j,b)` of the matrix of q-point `n`
+computed alone, and distinct (q-point, entry) pairs have distinct addresses (the iterations are independent). -/
+theorem batch_eq_map_single {T : DTables np nf ns nsv} {nq : Nat} (phs : Fin nq → Fin nsv → Cx R)
+    (mm : Fin np → Fin np → R) (fc : Fin nf → Fin ns → Fin 3 → Fin 3 → R) :
+    (∀ (n : Fin nq) (i j : Fin np) (a b : Fin 3),
+      dynmatBatchFlat T phs mm fc (flatIdx np n.1 i a j b) = dynmatC T (phs n) mm fc i a j b) ∧
+    (∀ (n n' : Nat) (i i' j j' : Fin np) (a a' b b' : Fin 3),
+      flatIdx np n i a j b = flatIdx np n' i' a' j' b' → n = n' ∧ i = i' ∧ a = a' ∧ j = j' ∧ b = b') :=
+  ⟨fun n i j a b => batch_eq_map T phs mm fc n i j a b,
+   fun n n' i i' j j' a a' b b' h => flatIdx_injective np n n' i i' j j' a a' b b' h⟩
+
+/-! ### frequencies: `sign(λ)·sqrt|λ|·factor` (the eigenvalues and the square root are parameters) -/
+
+section frequencies
+variable {K : Type} [Field K] [LinearOrder K] [IsStrictOrderedRing K]
+
+/-- (9) imaginary modes are reported as negative frequencies, real modes positive, zero modes zero; and
+`frequency² = |λ|·factor²` for `λ ≠ 0`. -/
+theorem frequency_sign_convention {sqrt : K → K} (h : IsSqrt sqrt) (factor ev : K) (hf : 0 < factor) :
+    (frequency sqrt factor ev < 0 ↔ ev < 0) ∧ (0 < frequency sqrt factor ev ↔ 0 < ev) ∧
+      (frequency sqrt factor ev = 0 ↔ ev = 0) ∧
+      (ev ≠ 0 → frequency sqrt factor ev * frequency sqrt factor ev = |ev| * (factor * factor)) := by
+  obtain ⟨h1, h2, h3⟩ := frequency_sign h factor ev hf
+  refine ⟨h1, h2, h3, fun hne => ?_⟩
+  rw [frequency_sq h]
+  have : signR ev * signR ev = 1 := by
+    rw [signR_eq]
+    rcases lt_or_gt_of_ne hne with hlt | hgt
+    · rw [if_neg (not_lt.mpr hlt.le), if_pos hlt]; ring
+    · rw [if_pos hgt]; ring
+  rw [this, mul_one]
+
+/-- (10) multiplying the dynamical matrix (hence every eigenvalue) by `c > 0` multiplies every frequency by `sqrt c`. -/
+theorem frequency_scales_with_sqrt {sqrt : K → K} (h : IsSqrt sqrt) (factor ev c : K) (hc : 0 < c) :
+    frequency sqrt factor (c * ev) = sqrt c * frequency sqrt factor ev :=
+  frequency_scaling h factor ev c hc
+
+end frequencies
+
+/-! ### the unit factor (tied to the monomials generated from `phonopy/units.py`, see C17) -/
+
+open PhononModel.Units PhononModel.Gen.Units in
+/-- (11) `VaspToTHz² = EV / AMU / Å² / (2π)² / 10²⁴` as an identity of unit monomials … -/
+theorem vaspToTHz_sq_monomial :
+    normEq (.pow VaspToTHz 2)
+      (.div (.div (.div (.div EV AMU) (.pow Angstrom 2)) (.pow (.mul (.num 2 0) UExpr.pi) 2)) (.num 1 24)) = true := by
+  decide +kernel
+
+open PhononModel.Units PhononModel.Gen.Units in
+/-- … hence an identity of real numbers, whatever the (positive) values of the fundamental constants: the factor
+turns `sqrt(eigenvalue of D)` in `sqrt(eV/Å²/amu)` into THz, `ν = ω/2π`. -/
+theorem vaspToTHz_sq_real (ρ : ℕ → ℝ) (hρ : Admissible ρ) :
+    (UExpr.pow VaspToTHz 2).eval ρ
+      = (UExpr.div (.div (.div (.div EV AMU) (.pow Angstrom 2)) (.pow (.mul (.num 2 0) UExpr.pi) 2)) (.num 1 24)).eval ρ :=
+  normEq_sound hρ _ _ vaspToTHz_sq_monomial
+
 /-! ### the driver's staged evaluators compute exactly the model -/
 
 theorem dynmatCF_spec (T : DTables np nf ns nsv) (ph : Fin nsv → Cx R) (mm : Fin np → Fin np → R)
@@ -164,5 +236,11 @@ end PhononModel.C02
 #print axioms PhononModel.C02.short_range_of_half_cell
 #print axioms PhononModel.C02.dynmatRaw_eq_fourier_commensurate
 #print axioms PhononModel.C02.hermitize_fixed
+#print axioms PhononModel.C02.ij_loop_eq_double_loop
+#print axioms PhononModel.C02.batch_eq_map_single
+#print axioms PhononModel.C02.frequency_sign_convention
+#print axioms PhononModel.C02.frequency_scales_with_sqrt
+#print axioms PhononModel.C02.vaspToTHz_sq_monomial
+#print axioms PhononModel.C02.vaspToTHz_sq_real
 #print axioms PhononModel.C02.dynmatCF_spec
 #print axioms PhononModel.C02.dynmatPyF_spec
